@@ -956,6 +956,7 @@ func (e *Engine) execSimple(st *State, fr *Frame, in ssa.Instruction, b *ssa.Bas
 		switch x.Op {
 		case token.MUL: // load
 			loc := e.locOfChecked(st, a, pos)
+			e.sharedAccess(st, fr, loc, false, pos)
 			v := e.loadLoc(st, loc)
 			v.T = rt
 			if loc.Kind != LocCell {
@@ -1059,8 +1060,16 @@ func (e *Engine) execSimple(st *State, fr *Frame, in ssa.Instruction, b *ssa.Bas
 		fr.regs[x] = v
 	case *ssa.ChangeType:
 		v := e.operand(st, fr, x.X)
-		v.T = resolve(x.Type(), fr.env)
-		fr.regs[x] = v
+		rt := resolve(x.Type(), fr.env)
+		_, toIface := rt.Underlying().(*types.Interface)
+		_, fromIface := v.T.Underlying().(*types.Interface)
+		if _, isTP := rt.(*types.TypeParam); toIface && !isTP && (!fromIface || isAbstractTP(v.T)) {
+			// generic code converts T to an interface with changetype; for a non-interface T this boxes the value
+			fr.regs[x] = e.makeInterface(st, v, rt)
+		} else {
+			v.T = rt
+			fr.regs[x] = v
+		}
 	case *ssa.Convert:
 		v := e.operand(st, fr, x.X)
 		fr.regs[x] = e.convert(st, v, resolve(x.Type(), fr.env))
@@ -1383,6 +1392,18 @@ func (e *Engine) addrUsesLocal(v ssa.Value, seen map[ssa.Value]bool) bool {
 			}
 			if callee, ok := cc.Value.(*ssa.Function); ok {
 				body := bodyOf(callee)
+				// a pointer passed in a generic or interface-typed value slot is data: it may be stored by the callee
+				for i, a := range cc.Args {
+					if a == v && i < len(body.Params) {
+						pt := body.Params[i].Type()
+						if _, isTP := pt.(*types.TypeParam); isTP {
+							return false
+						}
+						if _, isIface := pt.Underlying().(*types.Interface); isIface {
+							return false
+						}
+					}
+				}
 				c := e.contractFor(callee)
 				if (c == nil || c.Inline) && len(body.Blocks) > 0 && len(seen) < 64 {
 					// inlined callee: the address must not escape through the corresponding parameter
@@ -1471,4 +1492,9 @@ func (e *Engine) uniqueValues(fn *ssa.Function) map[string]ssa.Value {
 	}
 	uniqCache[fn] = m
 	return m
+}
+
+func isAbstractTP(t types.Type) bool {
+	_, ok := t.(*types.TypeParam)
+	return ok
 }
